@@ -105,6 +105,12 @@ func (c *Client) validateVirtualChannelSettlementProposal(
 		return errors.New("invalid parameters")
 	}
 
+	// Validate dimensions.
+	numParts := len(prop.Final.Params.Parts)
+	if prop.Final.State.Valid() != nil || prop.Final.State.NumParts() != numParts || len(prop.Final.Sigs) != numParts {
+		return errors.New("participants, balances and signatures do not match")
+	}
+
 	// Validate signatures.
 	for i, sig := range prop.Final.Sigs {
 		for _, p := range prop.Final.Params.Parts[i] {
@@ -141,6 +147,9 @@ func (c *Client) validateVirtualChannelSettlementProposal(
 	}
 
 	// Assert correct balances
+	if err := validIndexMap(subAlloc.IndexMap, numParts, parent.state().NumParts()); err != nil {
+		return err
+	}
 	virtual := transformBalances(prop.Final.State.Balances, parent.state().NumParts(), subAlloc.IndexMap)
 	correctBalances := parent.state().Balances.Add(virtual).Equal(prop.State.Balances)
 	if !correctBalances {
